@@ -206,17 +206,28 @@ func OpenDB(args ...interface{}) (massdb.MassDB, error) {
 	if !ok {
 		return nil, ErrDBWrongType
 	}
+	if !headerMatches(&hmB.HashMap, pubKey, bitLength) {
+		hmB.Close()
+		return nil, ErrDBHeaderNotMatched
+	}
 
 	var hmA *HashMapA
 	hmA = nil
 	if plotted, _ := hmB.Progress(); !plotted {
 		hmAi, err := LoadHashMap(pathA)
 		if err != nil {
+			hmB.Close()
 			return nil, err
 		}
 		hmA, ok = hmAi.(*HashMapA)
 		if !ok {
+			hmB.Close()
 			return nil, ErrDBWrongType
+		}
+		if !headerMatches(&hmA.HashMap, pubKey, bitLength) {
+			hmA.Close()
+			hmB.Close()
+			return nil, ErrDBHeaderNotMatched
 		}
 	}
 
@@ -229,6 +240,12 @@ func OpenDB(args ...interface{}) (massdb.MassDB, error) {
 		pubKey:     pubKey,
 		pubKeyHash: pocutil.PubKeyHash(pubKey),
 	}, nil
+}
+
+// headerMatches reports whether the public key and bit length recorded in a map file's header
+// are the ones the file was opened for (i.e. the ones in its name).
+func headerMatches(hm *HashMap, pubKey *pocec.PublicKey, bitLength int) bool {
+	return hm.bl == bitLength && hm.pk != nil && hm.pk.IsEqual(pubKey)
 }
 
 func CreateDB(args ...interface{}) (massdb.MassDB, error) {
